@@ -32,7 +32,7 @@ U.fn('lib.rs', 'parse',
      requires=[C('text@.len() <= u32::MAX && enc(text@).len() <= u32::MAX', BOTH)],
      ensures=[
          C('green_text(&ret.spec_green()) == enc(text@)', 'C01', name='tree text equals input'),
-         C('crate::parser::errs_ok_seq(ret.spec_errors(), text@)', 'C02', name='every syntax error: non-empty message, range inside the text on char boundaries'),
+         C('crate::parser::errs_ok_seq(ret.spec_errors(), text@)', 'C02 C17', name='every syntax error: non-empty message, range inside the text on char boundaries'),
      ],
      prologue='proof { lemma_enc_len(text@); lemma_boff_mono(text@); }')
 U.append('lib.rs', '''
@@ -375,7 +375,7 @@ U.fn('parser.rs', 'ParserBase::new',
 U.fn('parser.rs', 'ParserBase::finish',
      requires=['self.inv(false)', C('self.bv().n == 1 && self.bv().parents.len() == 0', 'C02', name='builder holds exactly one finished root node'),
                C('self.cur() == TokenKind::Eof', 'C01', name='whole input consumed before finish')],
-     ensures=[C('green_text(&ret.0) == self.srcv()', 'C01'), C('ret.1@ == self.errs()', 'C02'),
+     ensures=[C('green_text(&ret.0) == self.srcv()', 'C01'), C('ret.1@ == self.errs()', 'C02 C17'),
               C('forall|i: int| 0 <= i < ret.1@.len() ==> (#[trigger] ret.1@[i]).message@.len() > 0 && tr_start(ret.1@[i].range) <= tr_end(ret.1@[i].range) <= self.srcv().len() && (self.bnd())(tr_start(ret.1@[i].range)) && (self.bnd())(tr_end(ret.1@[i].range))', 'C02')])
 U.fn('parser.rs', 'ParserBase::builder',
      ensures=['*ret == old(self).bld()', 'final(self).bld() == *final(ret)', 'final(self).same_but_builder(old(self))',
@@ -402,7 +402,7 @@ U.fn('parser.rs', 'ParserBase::eof', ensures=['ret == (self.cur() == TokenKind::
 U.fn('parser.rs', 'ParserBase::error',
      requires=['old(self).inv_s(false) || old(self).inv_s(true)', C('msg_text(message).len() > 0', 'C02', name='parser error messages are non-empty')],
      ensures=['final(self).errs().len() == old(self).errs().len() + 1', 'final(self).after_err()', 'final(self).same_but_errors(old(self))',
-              C('final(self).errs_ok()', 'C02', name='recorded error is well-formed'),
+              C('final(self).errs_ok()', 'C02 C17', name='recorded error is well-formed'),
               'forall|s: bool| old(self).inv_s(s) ==> final(self).inv_s(s)', 'forall|s: bool| old(self).inv_t(s) ==> final(self).inv_t(s)',
               'final(self).fuel() == old(self).fuel()', 'final(self).bv() == old(self).bv()', 'final(self).cur() == old(self).cur()', 'final(self).ts() == old(self).ts()',
               'final(self).srcv() == old(self).srcv()', 'final(self).bnd() == old(self).bnd()'],
